@@ -82,6 +82,21 @@ Lemma ex_failing_move :
   wf_ro ro = true /\ msg_ok m = true /\ r_err (add o ro k m) = Some MosMergeError.
 Proof. exists no_oracles, ex_ro, ItemMoveMultiple, ex_imove_bad. repeat split; vm_compute; reflexivity. Qed.
 
+(* ... and the same message without a messageID: the f-string of the MosMergeError raises
+   AttributeError instead - still before anything is changed; and a delete of a known and an
+   unknown story without messageID is applied with one warning, no exception (repair F29) *)
+Definition ex_imove_noid : xml := el "mos" [tx "mosID" "M"; tx "ncsID" "N"; ex_imove_bad_b].
+Lemma ex_failing_move_noid :
+  exists (o : oracles) ro k m,
+  rc_of ro <> None /\ msg_ok m = false /\ r_err (add o ro k m) = Some PyAttributeError.
+Proof. exists no_oracles, ex_ro, ItemMoveMultiple, ex_imove_noid. split; [vm_compute; discriminate | split; vm_compute; reflexivity]. Qed.
+Definition ex_delete_noid : xml :=
+  el "mos" [el "roStoryDelete" [tx "roID" "RO"; tx "storyID" "A"; tx "storyID" "zz"]].
+Lemma ex_delete_noid_warns :
+  msg_ok ex_delete_noid = false /\ r_err (add no_oracles ex_ro StoryDelete ex_delete_noid) = None /\
+  r_ws (add no_oracles ex_ro StoryDelete ex_delete_noid) = [StoryNotFound].
+Proof. repeat split; vm_compute; reflexivity. Qed.
+
 (* ---- C12: a roStorySend without storyBody is not schema-shaped: AttributeError escapes *)
 Definition ex_send_bad : xml :=
   el "mos" [tx "messageID" "2"; el "roStorySend" [tx "roID" "RO"; tx "storyID" "A"]].
